@@ -67,6 +67,11 @@ def run (pr : ProbeRunner) (s : St) (ops : List Op) : St := ops.foldl (step pr) 
 /-- the state reached from `NewWorld(cap, rel)` by the history `ops` -/
 def reach (pr : ProbeRunner) (cap rel : Nat) (ops : List Op) : St := run pr (St.init cap rel) ops
 
+/-- the handle returned by a call, if it succeeded -/
+def retOf {α : Type} : Res World α → Option α
+  | .ok a _ => some a
+  | .panic _ _ => none
+
 /-- the pool with the ghost history, as in `Ark.Proofs.PoolHistory` -/
 def St.ps (s : St) : Pool.PS := ⟨s.w.pool, s.issued, s.live⟩
 
@@ -366,7 +371,7 @@ theorem step_run_indep (pr' : ProbeRunner) {s : St} {fl : List Nat} (h : HInv s 
 theorem run_run_indep (pr' : ProbeRunner) (ops : List Op) : ∀ (s : St) (fl : List Nat),
     HInv s fl → s.live.length + ops.length < 2 ^ 32 → run pr s ops = run pr' s ops := by
   induction ops with
-  | nil => intro s fl _ _; rfl
+  | nil => intro s fl _ _; simp only [run, List.foldl_nil]
   | cons op ops ih =>
     intro s fl h hb
     simp only [List.length_cons] at hb
@@ -381,6 +386,85 @@ theorem reach_run_indep (pr' : ProbeRunner) (ops : List Op) (hlen : ops.length <
   run_run_indep pr pr' ops _ [] (hinv_init cap rel) (by
     show 0 + ops.length < 2 ^ 32
     omega)
+
+/-! ### `issued` is exactly the set of handles returned by the `new` calls of the history -/
+
+theorem step_issued (s : St) (op : Op) (h : Ent) :
+    h ∈ (step pr s op).issued ↔
+      h ∈ s.issued ∨ (op = .new ∧ retOf (opNewEntity0 pr s.w) = some h) := by
+  cases op with
+  | new =>
+    simp only [step]
+    cases opNewEntity0 pr s.w with
+    | ok e w' =>
+      simp only [retOf, List.mem_cons, true_and, Option.some.injEq]
+      constructor
+      · rintro (h1 | h1)
+        · exact Or.inr h1.symm
+        · exact Or.inl h1
+      · rintro (h1 | h1)
+        · exact Or.inr h1
+        · exact Or.inl h1.symm
+    | panic k w' => simp [retOf]
+  | del e =>
+    have : (step pr s (.del e)).issued = s.issued := by
+      simp only [step]
+      split
+      · split <;> rfl
+      · rfl
+    rw [this]; simp
+  | set e ids vals =>
+    have : (step pr s (.set e ids vals)).issued = s.issued := by
+      simp only [step]; split <;> rfl
+    rw [this]; simp
+
+theorem run_issued (ops : List Op) : ∀ (s : St) (h : Ent),
+    h ∈ (run pr s ops).issued ↔ h ∈ s.issued ∨
+      ∃ ops1 ops2, ops = ops1 ++ .new :: ops2 ∧
+        retOf (opNewEntity0 pr (run pr s ops1).w) = some h := by
+  induction ops with
+  | nil =>
+    intro s h
+    constructor
+    · exact fun h1 => Or.inl h1
+    · rintro (h1 | ⟨ops1, ops2, heq, _⟩)
+      · exact h1
+      · cases ops1 <;> cases heq
+  | cons op ops ih =>
+    intro s h
+    have hrun : ∀ l, run pr s (op :: l) = run pr (step pr s op) l := fun _ => by
+      simp only [run, List.foldl_cons]
+    rw [hrun, ih, step_issued]
+    constructor
+    · rintro ((h1 | ⟨rfl, h2⟩) | ⟨ops1, ops2, rfl, h3⟩)
+      · exact Or.inl h1
+      · exact Or.inr ⟨[], ops, rfl, h2⟩
+      · exact Or.inr ⟨op :: ops1, ops2, rfl, by rw [hrun]; exact h3⟩
+    · rintro (h1 | ⟨ops1, ops2, heq, h3⟩)
+      · exact Or.inl (Or.inl h1)
+      · cases ops1 with
+        | nil =>
+          injection heq with h4 h5
+          subst h4; subst h5
+          exact Or.inl (Or.inr ⟨rfl, h3⟩)
+        | cons o ops1 =>
+          injection heq with h4 h5
+          subst h4
+          rw [hrun] at h3
+          exact Or.inr ⟨ops1, ops2, h5, h3⟩
+
+/-- a handle is in `issued` iff some `new` of the history returned it -/
+theorem issued_iff_returned (ops : List Op) (h : Ent) :
+    h ∈ (reach pr cap rel ops).issued ↔
+      ∃ ops1 ops2, ops = ops1 ++ .new :: ops2 ∧
+        retOf (opNewEntity0 pr (reach pr cap rel ops1).w) = some h := by
+  have := run_issued pr ops (St.init cap rel) h
+  constructor
+  · intro hm
+    rcases this.mp hm with h1 | h1
+    · cases h1
+    · exact h1
+  · exact fun hh => this.mpr (Or.inr hh)
 
 /-! ### non-vacuity: a concrete history with recycling -/
 
@@ -413,6 +497,21 @@ theorem forged_alive :
     forgedW.alive ⟨2, 0⟩ = false ∧ forgedW.alive ⟨2, 1⟩ = true ∧
     (forgedW.pool.get).2 = ⟨2, 1⟩ ∧
     (⟨2, 1⟩ : Ent) ∉ (reach noProbe 4 1 [.new, .del ⟨2, 0⟩]).issued := by
+  decide +kernel
+
+/-- **Model-fidelity note (forged handles only).**  Removing the forged handle `2.1` is accepted
+    by the model (`World.tbl` answers a default table for the index entry `maxU32`) and recycles
+    the free slot a second time: the free list becomes the cycle `2 → 2` and the next two
+    `NewEntity()` calls return the same handle `2.2`.  In Go the same call dies with a runtime
+    panic at `s.tables[index.table]` (index `maxTableID` out of range) before any mutation.
+    Both behaviours are outside the API contract; every theorem above is therefore stated for
+    handles the world has returned. -/
+theorem forged_remove_model :
+    let w1 := (opRemoveEntity noProbe ⟨2, 1⟩ forgedW).state
+    let r2 := opNewEntity0 noProbe w1
+    let r3 := opNewEntity0 noProbe r2.state
+    retOf (opRemoveEntity noProbe ⟨2, 1⟩ forgedW) = some () ∧
+    retOf r2 = some ⟨2, 2⟩ ∧ retOf r3 = some ⟨2, 2⟩ ∧ (r3.state.tbl 0).len = 2 := by
   decide +kernel
 
 end Ark.Props.C01Hist
